@@ -21,7 +21,7 @@ REWRITES = [
     'a if c else b -> __ite__(c, lambda: a, lambda: b, simple)',
     'obj[idx] (load, non-slice) -> __getitem__(obj, idx)',
     'x in c / x not in c -> __contains__(c, x)',
-    'const_str.method(...) -> __cm__(const, "method", ...)',
+    'const_str.method(...) and x.index/find/rfind/join/startswith/endswith/count(...) -> __cm__(receiver, "method", ...)',
     'int.from_bytes -> __intcls__.from_bytes',
 ]
 
@@ -60,7 +60,8 @@ class _Pass(ast.NodeTransformer):
                 and 'int' not in self.shadowed:
             f.value = ast.copy_location(ast.Name(id='__intcls__', ctx=ast.Load()), f.value)
             return node
-        if isinstance(f, ast.Attribute) and isinstance(f.value, ast.Constant) and isinstance(f.value.value, str):
+        if isinstance(f, ast.Attribute) and ((isinstance(f.value, ast.Constant) and isinstance(f.value.value, str))
+                                             or f.attr in _CM_NAMES):
             return ast.copy_location(
                 ast.Call(func=ast.Name(id='__cm__', ctx=ast.Load()),
                          args=[f.value, ast.Constant(value=f.attr)] + node.args, keywords=node.keywords), node)
@@ -103,6 +104,9 @@ class _Pass(ast.NodeTransformer):
                 call = ast.Call(func=ast.Name(id='__not__', ctx=ast.Load()), args=[call], keywords=[])
             return ast.copy_location(call, node)
         return node
+
+
+_CM_NAMES = ('index', 'find', 'rfind', 'join', 'startswith', 'endswith', 'count')
 
 
 def _is_simple(n):
@@ -324,7 +328,10 @@ def v_getitem(obj, idx):
                 return core.SymIntSub.wrap(r, k0) if _real_isinstance(r, SymInt) else k0(r)
             return obj[cur().concretize(idx)]
         if _real_isinstance(obj, str):
-            return VStr(obj)[idx]
+            r = VStr(obj)[idx]
+            if len(r._d) == 1 and _real_isinstance(r._d[0], SymInt):
+                r._d[0].tag = ('tbl', obj, idx)
+            return r
         if _real_isinstance(obj, (bytes, bytearray)):
             return VBytes(obj)[idx]
         if _real_isinstance(obj, dict):
@@ -391,17 +398,21 @@ def v_ite(c, fa, fb, simple):
     return fa() if c else fb()
 
 
-def v_cm(const, name, *args, **kw):
-    """method call on a constant str receiver"""
-    symbolic = any(_real_isinstance(a, (VStr, VBytes, SymInt)) for a in args)
-    if not symbolic and name == 'join' and args:
-        lst = list(args[0])
-        if any(_real_isinstance(a, VStr) for a in lst):
-            return getattr(VStr(const), name)(lst)
-        return const.join(lst)
-    if symbolic:
-        return getattr(VStr(const), name)(*args, **kw)
-    return getattr(const, name)(*args, **kw)
+def v_cm(recv, name, *args, **kw):
+    """method call on a constant / real str or bytes receiver with possibly symbolic arguments"""
+    if _real_isinstance(recv, str):
+        symbolic = any(_real_isinstance(a, (VStr, VBytes, SymInt)) for a in args)
+        if not symbolic and name == 'join' and args:
+            lst = list(args[0])
+            if any(_real_isinstance(a, VStr) for a in lst):
+                return VStr(recv).join(lst)
+            return recv.join(lst)
+        if symbolic:
+            return getattr(VStr(recv), name)(*args, **kw)
+    elif _real_isinstance(recv, (bytes, bytearray)):
+        if any(_real_isinstance(a, (VBytes, VByteArray, SymInt)) for a in args) or name == 'join':
+            return getattr(VBytes(recv), name)(*args, **kw)
+    return getattr(recv, name)(*args, **kw)
 
 
 def v_fstr(vals, thunk):
